@@ -163,6 +163,16 @@ pub fn systematic() -> Vec<Case> {
         add(&format!("fk-two-cols-{nm}-delete-second-ref"), vec![p(), m2(a1, a2)], vec![prow(), ins("m", 3, vec![vec![i(1), i(1), i(2)], vec![i(2), nul(), i(3)]]), del("p", eqc(0, 2)), del("p", eqc(0, 3)), del("p", eqc(0, 1))]);
         add(&format!("fk-two-cols-{nm}-delete-first-ref"), vec![p(), m2(a1, a2)], vec![prow(), ins("m", 3, vec![vec![i(1), i(1), i(2)], vec![i(2), i(3), nul()]]), del("p", eqc(0, 1)), del("p", eqc(0, 3)), del("p", eqc(0, 2))]);
     }
+    // the DELETE hits a cascading and a refusing reference at once: the statement fails and nothing may change
+    for (nm, a1, a2) in [("cascade-noaction", Some(Act::Cascade), None), ("cascade-restrict", Some(Act::Cascade), Some(Act::Restrict)), ("noaction-cascade", None, Some(Act::Cascade))] {
+        add(&format!("fk-two-cols-{nm}-delete-hits-both"), vec![p(), m2(a1, a2)], vec![prow(), ins("m", 3, vec![vec![i(1), i(2), nul()], vec![i(2), nul(), i(2)], vec![i(3), i(1), i(3)]]), del("p", eqc(0, 2)), del("p", None), del("p", eqc(0, 1))]);
+    }
+    let o1 = |od: Option<Act>| TableC { fks: vec![fk(1, "p", 0, "id", od, None)], ..tbl("o", vec![pkc("id"), c("pid")]) };
+    let v1 = |od: Option<Act>| TableC { fks: vec![fk(1, "p", 0, "id", od, None)], ..tbl("v", vec![pkc("id"), c("pid")]) };
+    for rep_i in 0..6 {
+        // two child tables (the engine walks them in hash-map order: repeated on fresh databases)
+        add(&format!("fk-two-children-cascade-restrict-{rep_i}"), vec![p(), o1(Some(Act::Cascade)), v1(None)], vec![prow(), ins("o", 2, vec![vec![i(1), i(1)], vec![i(2), i(2)]]), ins("v", 2, vec![vec![i(1), i(1)]]), del("p", eqc(0, 1)), del("p", None), del("p", eqc(0, 2))]);
+    }
     // two levels
     let g = |od: Option<Act>| TableC { fks: vec![fk(1, "c", 0, "id", od, None)], ..tbl("g", vec![pkc("id"), c("cid")]) };
     add("fk-two-level-cascade", vec![p(), ch(Some(Act::Cascade), None), g(Some(Act::Cascade))], vec![prow(), ins("c", 2, vec![vec![i(1), i(1)], vec![i(2), i(2)]]), ins("g", 2, vec![vec![i(1), i(1)], vec![i(2), i(2)]]), del("p", eqc(0, 1))]);
@@ -469,6 +479,19 @@ fn run_case(ctx: &Ctx, rep: &mut Report, model: &mut Model, case: &Case, tag: &s
             rep.count("history_ended_resurrection");
             break;
         }
+        // ---- C06 (statement atomicity across tables): an Err-returning DELETE / UPDATE must leave every table as it was
+        if got == "err" && matches!(st, St::Delete { .. } | St::Update { .. }) {
+            let changed: Vec<String> = pre.iter().zip(&post).filter(|((_, a), (_, b))| sorted_cells(a) != sorted_cells(b)).map(|((n, _), _)| n.clone()).collect();
+            rep.count("c06_failed_delete_update_statements");
+            if !changed.is_empty() {
+                rep.count("c06_failed_stmt_effect");
+                let fl = flags(&case.schema, st, "fk-parent", &pre, &h, None, false);
+                let own = changed.iter().any(|n| n == tname);
+                rep.oracle_fail(case.name.clone(), format!("{} ;; {sql} returned an error ({emsg}) but changed table(s) {:?}: before {:?} after {:?}", script_text(&case.schema, &case.stmts, si), changed,
+                    pre.iter().map(|(n, r)| (n.clone(), sorted_cells(r))).collect::<Vec<_>>(), post.iter().map(|(n, r)| (n.clone(), sorted_cells(r))).collect::<Vec<_>>()),
+                    format!("c06:failed-stmt-effect:{}:{}:{fl}", st.kind(), if own { "own-table" } else { "child-tables-only" }));
+            }
+        }
         let mut reported = false;
         if exp != got {
             // which constraint is at stake
@@ -617,5 +640,53 @@ pub fn run(ctx: &Ctx) -> Report {
     check_eval_phase(ctx, &mut rng, &mut model, &mut rep);
     rep.notes.push(format!("seconds: systematic {:.1}, random {:.1}, checkeval {:.1}", t_sys, t_rand, t0.elapsed().as_secs_f64() - t_sys - t_rand));
     rep.notes.push(format!("model requests: {}", model.requests));
+    // partial effects of failed statements across tables are C06's subject (engine sql_dml_atomic runs this layer too)
+    let n6 = strip_c06(&mut rep, false);
+    if n6 > 0 { rep.count_n("other-property:c06-failed-stmt-effect", n6); }
     rep
+}
+
+/// keep (`keep = true`) or remove the `c06:` oracle failures of a report; returns how many there were
+fn strip_c06(rep: &mut Report, keep: bool) -> u64 {
+    let is6 = |f: &Finding| f.signature.starts_with("c06:");
+    let n6 = rep.hist.get("c06_failed_stmt_effect").copied().unwrap_or(0);
+    if keep { rep.oracle_failures.retain(|f| is6(f)); rep.n_oracle_failures = n6; rep.disagreements.clear(); rep.n_disagreements = 0; }
+    else { rep.oracle_failures.retain(|f| !is6(f)); rep.n_oracle_failures = rep.n_oracle_failures.saturating_sub(n6); }
+    n6
+}
+
+/// C06 layer: the FK scenarios and random multi-table histories of this engine, reporting ONLY
+/// failed DELETE / UPDATE statements that changed some table (cascade applied before the refusal)
+pub fn run_atomic_layer(ctx: &Ctx, out: &mut Report) {
+    let mut rep = Report::new("sql_cons_atomic", "");
+    let mut rng = Rng::new(ctx.seed ^ 0xC06C);
+    let mut model = Model::spawn(&ctx.model_bin, "sqlcons");
+    let sys = systematic();
+    let mut n = 0;
+    for line in ctx.corpus_cases("C06") {
+        n += 1;
+        if let Some(name) = line.strip_prefix("sys:") { if let Some(cs) = sys.iter().find(|c| c.name == name) { run_case(ctx, &mut rep, &mut model, &Case { name: line.clone(), schema: cs.schema.clone(), stmts: cs.stmts.clone() }, &format!("a6corpus{n}")); } }
+        else if let Some(seed) = line.strip_prefix("rand:").and_then(|s| s.parse::<u64>().ok()) { run_case(ctx, &mut rep, &mut model, &gen_case(seed), &format!("a6corpus{n}")); }
+    }
+    if ctx.replay.is_some() {
+        strip_c06(&mut rep, true);
+        for f in rep.oracle_failures { out.oracle_fail(f.case, f.detail, f.signature); }
+        return;
+    }
+    for (k, cs) in sys.iter().enumerate() {
+        if !cs.name.starts_with("fk-") { continue; }
+        let cs2 = Case { name: format!("sys:{}", cs.name), schema: cs.schema.clone(), stmts: cs.stmts.clone() };
+        run_case(ctx, &mut rep, &mut model, &cs2, &format!("a6sys{k}"));
+        out.count("multi-table:fk-scenarios");
+    }
+    let nr = if ctx.thorough { 1500 } else { 60 };
+    for k in 0..nr {
+        let cs = gen_case(rng.next() >> 16);
+        run_case(ctx, &mut rep, &mut model, &cs, &format!("a6r{k}"));
+        out.count("multi-table:random-histories");
+    }
+    strip_c06(&mut rep, true);
+    out.count_n("multi-table:failed-delete-update-statements", rep.hist.get("c06_failed_delete_update_statements").copied().unwrap_or(0));
+    out.evaluations += rep.hist.get("c06_failed_delete_update_statements").copied().unwrap_or(0);
+    for f in rep.oracle_failures { out.oracle_fail(f.case, f.detail, f.signature); }
 }
